@@ -61,7 +61,8 @@ P["C02"] = {
  "title": "streams deliver every message once, in order, then the correct end-of-stream",
  "bounds": "one bidirectional stream, real client and server over the channel transport; client programs {send-all-then-receive, ping-pong, separate sender/receiver goroutines, half-close first} x handler programs {echo, burst, reply-after-EOF, return-before-EOF}; msgs <= 1 (quick) / 2 (thorough); symbolic payloads; all interleavings",
  "assumptions": GEN_ASSUME + ["programs in which one side sends without reading use a transport queue (tcap) that accepts their writes: back-pressure deadlocks between application programs are outside the property"],
- "quick": [c02(0,0,1), c02(1,0,1), c02(2,0,1), c02(3,0,1), c02(0,2,1), c02(0,3,1), c02(3,1,1,tcap=2), c02(0,1,1,tcap=3)],
+ "quick": [c02(0,0,1), c02(1,0,1), c02(2,0,1), c02(3,0,1), c02(0,2,1), c02(0,3,1), c02(3,1,1,tcap=2), c02(0,1,1,tcap=3),
+           job("H_C05_concurrent_ids", conc=True, reach=["checked"], n=0, streams=2), job("H_C05_merge", conc=True, reach=["checked"], bodies=2)],
  "thorough": [c02(0,0,1), c02(1,0,1), c02(2,0,1), c02(3,0,1), c02(0,2,1), c02(0,3,1), c02(3,1,1,tcap=2), c02(0,1,1,tcap=3),
               c02(0,0,2), c02(1,0,2), c02(0,2,2), c02(0,3,2), c02(3,1,2,tcap=3)],
 }
@@ -69,7 +70,8 @@ P["C02"] = {
 # ---------------------------------------------------------------- C03
 c03q = [job("H_C03_unary", conc=True, ek=ek, nd=2) for ek in range(0, 8)] + \
        [job("H_C03_stream", conc=True, ek=ek, nd=1, pos=pos, sending=0, tcap=2) for ek in (0, 1, 3, 4, 6) for pos in (0, 1)] + \
-       [job("H_C03_stream", conc=True, ek=1, nd=1, pos=0, sending=1, tcap=2)]
+       [job("H_C03_stream", conc=True, ek=1, nd=1, pos=0, sending=1, tcap=2)] + \
+       [job("H_C07_cancel", conc=True, hmode=2, cprog=0, m=1, fault=0, tcap=1)]  # no success reported after the caller abandoned a failing stream
 P["C03"] = {
  "title": "the status a handler finishes with is the status the caller observes",
  "bounds": "handler result from {nil, status error with symbolic code 1..16 and symbolic 2-byte message (any bytes), the same wrapped by fmt.Errorf(%w) / pkg/errors.Wrap, plain error with symbolic text, context.Canceled, context.DeadlineExceeded, status with 1..2 details}; unary end to end; bidi stream with the error before any message / after one exchange, caller idle or still sending (reset vs trailer ordering); all interleavings",
@@ -94,15 +96,20 @@ P["C05"] = {
  "bounds": "inductive id step from an arbitrary 64-bit counter (any history shorter than 2^64); dispatch from a registry of two symbolic distinct ids with a symbolic envelope id; n concurrently starting callers (2 quick / 3 thorough), all interleavings; two concurrent calls (stream + unary) with every merge of their response sequences (stream bodies <= 2 / 3)",
  "assumptions": GEN_ASSUME,
  "quick": [job("H_C05_ids", conc=True, reach=["checked"]), job("H_C05_dispatch", reach=["to-a", "to-b", "dropped"]), job("H_C05_concurrent_ids", conc=True, reach=["checked"], n=2),
-           job("H_C05_concurrent_ids", conc=True, reach=["checked"], n=3), job("H_C05_merge", conc=True, reach=["checked"], bodies=2)],
+           job("H_C05_concurrent_ids", conc=True, reach=["checked"], n=3), job("H_C05_merge", conc=True, reach=["checked"], bodies=2),
+           job("H_C05_concurrent_ids", conc=True, reach=["checked"], n=1, streams=1), job("H_C05_concurrent_ids", conc=True, reach=["checked"], n=2, streams=1),
+           dict(job("H_C05_concurrent_ids", conc=True, n=1, streams=1), race=True), dict(job("H_C05_concurrent_ids", conc=True, n=2, streams=0), race=True)],
  "thorough": [job("H_C05_ids", conc=True, reach=["checked"]), job("H_C05_dispatch", reach=["to-a", "to-b", "dropped"]), job("H_C05_concurrent_ids", conc=True, reach=["checked"], n=3),
-           job("H_C05_merge", conc=True, reach=["checked"], bodies=3), job("H_C01_direct", conc=True, reach=["quiescent"], callers=2)],
+           job("H_C05_merge", conc=True, reach=["checked"], bodies=3), job("H_C01_direct", conc=True, reach=["quiescent"], callers=2),
+           job("H_C05_concurrent_ids", conc=True, reach=["checked"], n=2, streams=2),
+           dict(job("H_C05_concurrent_ids", conc=True, n=2, streams=1), race=True)],
 }
 
 # ---------------------------------------------------------------- C06
 def c06(**kw): return job("H_C06_wire", conc=True, reach=["checked"], **kw)
 c06q = [c06(kind=0, herr=0, hdrmode=1), c06(kind=0, herr=1), c06(kind=1, cp=0, hp=0, msgs=1, hdrmode=1), c06(kind=1, cp=0, hp=0, msgs=1, hdrmode=2),
-        c06(kind=1, cp=2, hp=1, msgs=1, herr=1, hdrmode=3), c06(kind=1, cp=0, hp=3, msgs=2), c06(kind=1, cp=2, hp=0, msgs=1, cancel=1, tcap=1), c06(kind=0, cancel=1)]
+        c06(kind=1, cp=2, hp=1, msgs=1, herr=1, hdrmode=3), c06(kind=1, cp=0, hp=3, msgs=2), c06(kind=1, cp=2, hp=0, msgs=1, cancel=1, tcap=1), c06(kind=0, cancel=1),
+        c06(kind=1, cp=0, hp=0, msgs=1, wfail=2, tcap=1), c06(kind=1, cp=0, hp=0, msgs=1, badmsg=1, tcap=1)]
 P["C06"] = {
  "title": "every emitted envelope sequence conforms to the documented wire protocol",
  "bounds": "complete wire history (taps on both directions) of one RPC per scenario, checked by the protocol automaton at every quiescent state: unary ok/error/cancel; bidi streams over the C02 program families with header modes {none, SetHeader+first message, SendHeader, SetTrailer}, handler errors, early handler return (reset path) and caller cancellation at an arbitrary point; msgs <= 2; all interleavings",
@@ -114,13 +121,14 @@ P["C06"] = {
 # ---------------------------------------------------------------- C07
 def c07(**kw): return job("H_C07_cancel", conc=True, **kw)
 c07q = [c07(hmode=1, cprog=0, fault=0, tcap=1), c07(hmode=0, cprog=1, fault=0, tcap=1), c07(hmode=1, cprog=2, fault=0, tcap=1), c07(hmode=1, cprog=0, fault=1, tcap=1),
-        c07(hmode=2, cprog=0, m=1, fault=0, tcap=1)]
+        c07(hmode=2, cprog=0, m=1, fault=0, tcap=1)] + [job("H_C11_client_cancel_unread", conc=True, reach=["checked"], m=m) for m in (0, 2, 3)]
 P["C07"] = {
  "title": "cancelling a streaming call cancels its handler and fails the caller's calls",
  "bounds": "one bidi stream; cancellation by a racing goroutine (lands at every point of every other goroutine's operation sequence) or deadline expiry (may fire at any scheduling point); handler blocked in RecvMsg / on its context / after queuing m responses (m <= 1 quick, 2 thorough); caller receiving / sending then receiving / half-closed; optional unrelated unary call on the connection; all interleavings",
  "assumptions": GEN_ASSUME + ["deadline expiry is modelled for the caller's context only"],
  "quick": c07q,
- "thorough": c07q + [c07(hmode=2, cprog=0, m=2, fault=0, tcap=1), c07(hmode=1, cprog=0, fault=0, tcap=1, other=1)],
+ "thorough": c07q + [c07(hmode=2, cprog=0, m=2, fault=0, tcap=1), c07(hmode=1, cprog=0, fault=0, tcap=1, other=1), c07(hmode=2, cprog=0, m=3, fault=0, tcap=1),
+              job("H_C11_client_cancel_unread", conc=True, reach=["checked"], m=5)],
 }
 
 # ---------------------------------------------------------------- C10
@@ -136,7 +144,8 @@ P["C10"] = {
 
 # ---------------------------------------------------------------- C11
 c11q = [job("H_C11_server_abandon", conc=True, reach=["checked"], n=n, k=k) for n, k in ((2, 0), (3, 0), (3, 1), (3, 2))] + \
-       [job("H_C11_client_extra", conc=True, reach=["probe-ok"], mode=m, extra=x) for m in (0, 1) for x in (2, 3)]
+       [job("H_C11_client_extra", conc=True, reach=["probe-ok"], mode=m, extra=x) for m in (0, 1) for x in (2, 3)] + \
+       [job("H_C11_client_cancel_unread", conc=True, reach=["checked"], m=m) for m in (1, 3, 4)]
 P["C11"] = {
  "title": "an abandoned stream never wedges its connection",
  "bounds": "server side: a handler returns after k of n client messages (n <= 3 quick / 5 thorough, all k < n), the peer keeps sending the rest and the trailer, then a probe unary request must be served; client side: a finished stream or unary call receives 2..3 (thorough 4) further envelopes for its id, then a probe call must get its own reply; probes have no deadline (a wedge shows as a blocked goroutine); all interleavings",
@@ -150,8 +159,11 @@ P["C12"] = {
  "title": "no envelope sequence from a peer can crash or stall a server",
  "bounds": "every sequence of L envelopes over 14 shapes x 2 stream ids (header absent, unparsable method, unknown service, unknown method, foreign destination, valid unary, unary with undecodable -bin metadata, stream open, open with bad metadata, body, trailer, RST_STREAM, reset of another type, body for a foreign destination), L = 2 (quick) / 3 (thorough), each followed by a valid probe request and a clean end; all interleavings",
  "assumptions": GEN_ASSUME,
- "quick": [job("H_C12_seq", conc=True, reach=["checked"], L=2, first=f) for f in range(14)],
- "thorough": [job("H_C12_seq", conc=True, reach=["checked"], L=3, first=f) for f in range(14)],
+ "quick": [job("H_C12_seq", conc=True, reach=["checked"], L=2, first=f) for f in range(14)] +
+          [job("H_C12_seq", conc=True, reach=["checked"], L=3, first=7, second=9, third=9, oneid=1, lazy=1), job("H_C12_seq", conc=True, reach=["checked"], L=4, first=7, second=9, third=9, oneid=1, lazy=1),
+           job("H_C12_seq", conc=True, reach=["checked"], L=2, first=7, lazy=1)],
+ "thorough": [job("H_C12_seq", conc=True, reach=["checked"], L=3, first=f) for f in range(14)] +
+          [job("H_C12_seq", conc=True, reach=["checked"], L=3, first=7, second=9, lazy=1), job("H_C12_seq", conc=True, reach=["checked"], L=4, first=7, second=9, third=9, oneid=1, lazy=1)],
 }
 
 # ---------------------------------------------------------------- C13
@@ -160,15 +172,16 @@ P["C13"] = {
  "bounds": "two outstanding calls (unary+unary, unary+stream, stream+stream), with and without a stats handler; every sequence of L response envelopes over 12 shapes addressed to call 1, call 2 or an unknown id, then the connection closes; L = 1..2 (quick), 3 for unary+unary (thorough); all interleavings",
  "assumptions": GEN_ASSUME,
  "quick": [job("H_C13_seq", conc=True, reach=["checked"], L=1, mode=m, stats=s) for m in (0, 1, 2) for s in (0, 1)] +
-          [job("H_C13_seq", conc=True, reach=["checked"], L=2, mode=0, stats=1, first=f) for f in range(12)],
- "thorough": [job("H_C13_seq", conc=True, reach=["checked"], L=1, mode=m, stats=s) for m in (0, 1, 2) for s in (0, 1)] +
+          [job("H_C13_seq", conc=True, reach=["checked"], L=2, mode=0, stats=1, first=f) for f in range(12)] +
+          [job("H_C13_seq", conc=True, reach=["checked"], L=3, mode=m, stats=0, preset=1) for m in (0, 1)],
+ "thorough": [job("H_C13_seq", conc=True, reach=["checked"], L=4, mode=0, stats=0, preset=1)] + [job("H_C13_seq", conc=True, reach=["checked"], L=1, mode=m, stats=s) for m in (0, 1, 2) for s in (0, 1)] +
           [job("H_C13_seq", conc=True, reach=["checked"], L=2, mode=m, stats=1, first=f) for f in range(12) for m in (0, 1)] +
           [job("H_C13_seq", conc=True, reach=["checked"], L=3, mode=0, stats=0, first=f) for f in range(12)],
 }
 
 # ---------------------------------------------------------------- C14
 def c14(**kw): return job("H_C14_release", conc=True, reach=["checked"], **kw)
-c14q = [c14(outcome=o, pre=p, tcap=2) for o in (0, 1, 2, 3, 5, 6) for p in (0, 1)] + [c14(outcome=4, pre=0, tcap=1)]
+c14q = [c14(outcome=o, pre=p, tcap=2) for o in (0, 1, 2, 3, 5, 6, 7) for p in (0, 1)] + [c14(outcome=4, pre=0, tcap=1)]
 P["C14"] = {
  "title": "finishing an RPC releases everything held for it; state stays bounded",
  "bounds": "inductive step: one complete RPC (unary ok / handler error / transport write failure; stream ok / handler error / caller cancel at any point / failed open) on a real client+server pair, with and without another stream registered before; afterwards both registries have their previous size and the goroutine census is back at the idle level - so histories of any length follow by induction over idle-compatible states; all interleavings",
@@ -180,7 +193,7 @@ P["C14"] = {
 # ---------------------------------------------------------------- C16
 c16q = [job("H_C16_forward", reach=["forwarded"], peers=p, ic=ic, next=nx, rec=rc, fill=fl) for p in (2, 3) for ic in (0, 1) for nx in (-1, 0, 1, 2) for rc in (0, 2) for fl in (0, 15)] + \
        [job("H_C16_forward", reach=["rejected"], peers=2, ic=2), job("H_C16_forward", peers=2, ic=0, fill=16)] + \
-       [job("H_C17_conc", conc=True, reach=["checked"], scenario=2, n=3)]
+       [job("H_C17_conc", conc=True, reach=["checked"], scenario=2, n=3), job("H_C17_conc", conc=True, reach=["checked"], scenario=1, n=1)]
 P["C16"] = {
  "title": "a proxy delivers each accepted envelope once, in order, to the right peer",
  "bounds": "one forwarding step from a proxy state with 2..3 attached peers and symbolic queue fill 0/15/16 of 16, for an accepted envelope with symbolic destination / interceptor rewrite / return route of 0..2 hops (nil and empty) / route record of 0..2 entries, symbolic id and payload; per-pair ordering with a stuck third peer (3 envelopes, all interleavings)",
@@ -189,7 +202,7 @@ P["C16"] = {
 }
 
 # ---------------------------------------------------------------- C17
-c17q = [job("H_C17_reject", reach=["rejected"], kind=k) for k in (0, 1, 2)] + [job("H_C17_conc", conc=True, reach=["checked"], scenario=s, n=n) for s, n in ((0, 1), (1, 1), (2, 2), (3, 1), (4, 2))]
+c17q = [job("H_C17_reject", reach=["rejected"], kind=k) for k in (0, 1, 2)] + [job("H_C17_reject", kind=k, unnamed=1) for k in (0, 1, 2)] + [job("H_C17_conc", conc=True, reach=["checked"], scenario=s, n=n) for s, n in ((0, 1), (1, 1), (2, 2), (3, 1), (4, 2))]
 P["C17"] = {
  "title": "a proxy rejects spoofed sources, isolates bad peers and shuts down cleanly",
  "bounds": "forwardRpc for a missing header / every 2-byte claimed source / empty source; scenarios under all interleavings: context cancelled at any point during traffic (goroutine census), re-attachment under the same name racing with the old connection's failure, stuck writer, failing reader, unreachable destination (dial error); <= 2 envelopes per pair (thorough 3)",
@@ -200,7 +213,7 @@ P["C17"] = {
 
 # ---------------------------------------------------------------- C18
 def c18(**kw): return job("H_C18_demux", conc=True, reach=["checked"], **kw)
-c18q = [c18(K=2, L=3, W=1), c18(K=2, L=2, W=1, cancelKey=1), c18(K=2, L=2, W=1, stop=1), c18(K=1, L=2, W=0, stop=1, slow=1), c18(K=2, L=2, W=1, cancelKey=1, stop=1)]
+c18q = [c18(K=2, L=3, W=1), c18(K=2, L=2, W=1, cancelKey=1), c18(K=2, L=2, W=1, stop=1), c18(K=1, L=2, W=0, stop=1, slow=1), c18(K=2, L=2, W=1, cancelKey=1, stop=1), job("H_C18_cancel_pending", conc=True, reach=["checked"])]
 P["C18"] = {
  "title": "a demultiplexer gives each key its own ordered connection and shares the writer",
  "bounds": "L envelopes (3 quick / 4 thorough) over K keys (2 / 3) in every key assignment, consumers per logical connection reading and writing W envelopes each; Cancel(key) and Stop() at any point, concurrent with the run loop, readers and writers; slow consumers; all interleavings",
@@ -211,7 +224,8 @@ P["C18"] = {
 
 # ---------------------------------------------------------------- C19
 c19q = [job("H_C19_ws_read", reach=["valid", "rejected"]), job("H_C19_ws_write", reach=["checked"]), job("H_C19_channel", conc=True, reach=["checked"]),
-        job("H_C19_http_serve", conc=True, reach=["valid", "rejected"]), job("H_C19_http_idle", conc=True, reach=["checked"], reader=0), job("H_C19_http_idle", conc=True, reach=["checked"], reader=1)]
+        job("H_C19_http_serve", conc=True, reach=["valid", "rejected"]), job("H_C19_http_idle", conc=True, reach=["checked"], reader=0), job("H_C19_http_idle", conc=True, reach=["checked"], reader=1),
+        dict(job("H_C19_http_idle", conc=True, reader=1), race=True), dict(job("H_C19_http_serve", conc=True), race=True)]
 P["C19"] = {
  "title": "shipped transports carry every envelope unchanged and reject what is not one",
  "bounds": "goat's glue around each transport: WebSocket Read over {library error, text frame, undecodable bytes, valid binary} and Write; channel transport FIFO for 3 envelopes and cancellation of a blocked Read and Write; HTTP ServeHTTP over 7 request shapes; HTTP delivery vs reader vs idle-timeout tick vs context cancellation in every order",
@@ -222,7 +236,8 @@ P["C19"] = {
 # ---------------------------------------------------------------- C20
 c20q = [job("H_C20_unary_chain", reach=["checked"], n=n) for n in (1, 2, 3, 4)] + [job("H_C20_unary_chain", reach=["checked"], n=3, short=s) for s in (0, 1, 2)] + \
        [job("H_C20_stream_chain", reach=["checked"], n=n) for n in (1, 2, 3, 4)] + \
-       [job("H_C20_stats_e2e", conc=True, reach=["checked"], H=h, kind=k, outcome=o) for h in (1, 2) for k in (0, 1) for o in (0, 1)]
+       [job("H_C20_stats_e2e", conc=True, reach=["checked"], H=h, kind=k, outcome=o) for h in (1, 2) for k in (0, 1) for o in (0, 1)] + \
+       [job("H_C20_stats_failures", conc=True, reach=["checked"], H=2, outcome=o) for o in (0, 1, 2)]
 P["C20"] = {
  "title": "interceptors and stats handlers see every RPC exactly once, in order",
  "bounds": "chains of n recording interceptors (1..4 quick, ..6 thorough) with symbolic request/reply rewrites, optionally short-circuiting, driven through the real processUnaryRpc and generated handler / the real chained stream interceptor; H = 1..2 (3 thorough) recording stats handlers on each side, unary and bidi RPC, ok and handler error, end to end with Begin/End pairing, tag propagation and ConnBegin/ConnEnd",
@@ -240,7 +255,9 @@ c15q = [race(job("H_C01_direct", callers=2)), race(job("H_C02_stream", cp=2, hp=
         race(job("H_C10_end", u=1, s=1, fault=2, hmode=0)), race(job("H_C07_cancel", hmode=1, cprog=0, fault=0, tcap=1)),
         race(job("H_C11_server_abandon", n=3, k=1)), race(job("H_C11_client_extra", mode=0, extra=2)),
         race(job("H_C17_conc", scenario=1, n=1)), race(job("H_C17_conc", scenario=0, n=1)), race(job("H_C18_demux", K=2, L=2, W=1, cancelKey=1, stop=1)),
-        race(job("H_C19_http_idle", reader=1)), race(job("H_C06_wire", kind=1, cp=0, hp=0, msgs=1, hdrmode=2))]
+        race(job("H_C19_http_idle", reader=1)), race(job("H_C06_wire", kind=1, cp=0, hp=0, msgs=1, hdrmode=2)),
+        race(job("H_C07_cancel", hmode=1, cprog=1, fault=0, tcap=1)), race(job("H_C05_concurrent_ids", n=1, streams=1)), race(job("H_C05_concurrent_ids", n=2, streams=0)),
+        race(job("H_C11_client_cancel_unread", m=2)), race(job("H_C18_cancel_pending")), race(job("H_C20_stats_failures", H=1, outcome=2))]
 P["C15"] = {
  "title": "API-permitted concurrent use is free of data races",
  "bounds": "happens-before (vector clock) race detection over every explored schedule of the listed scenarios of C01, C02, C06, C07, C09, C10, C11, C17, C18, C19 at their quick bounds; accesses checked: loads, stores and map operations executed by goat's own code",
